@@ -254,6 +254,11 @@ class StrictCtx(PathCtx):
         c2 = z3.simplify(c)
         if z3.is_true(c2): return True
         if z3.is_false(c2): return False
+        # decided by the assumptions made so far?
+        ft = s.feasible(c2); ff = s.feasible(z3.Not(c2))
+        if ft and not ff: return True
+        if ff and not ft: return False
+        if not ft and not ff: raise PathInfeasible()
         raise NeedConcrete(sorted(symbols_of(c2)))
     def concretize(s, bv, what='value'):
         if isinstance(bv, int): return bv
